@@ -422,3 +422,93 @@ fn reconf_local_settings(lower: bool) {
 }
 pub fn c03_reconf_local_settings_raise() { reconf_local_settings(false) }
 pub fn c03_reconf_local_settings_lower() { reconf_local_settings(true) }
+
+// ---------------------------------------------------------------------------
+// C03.update with the real Codec: the WINDOW_UPDATE frames themselves
+// ---------------------------------------------------------------------------
+use crate::codec::verif_h::{codec_buffered, codec_set_blocked, mk_codec, Mock, EXP};
+use crate::proto::streams::verif_h::SymBuf;
+
+fn be32(b: &[u8]) -> u32 {
+    ((b[0] as u32) << 24) | ((b[1] as u32) << 16) | ((b[2] as u32) << 8) | (b[3] as u32)
+}
+
+/// connection-level WINDOW_UPDATE: emitted iff owed, increment = available - window,
+/// brings the advertised window to `available` (<= target), once; kept under back-pressure.
+pub fn c03_update_connection_frame() {
+    let mut w = rworld(3, true);
+    let pre = sym_rpre(&mut w);
+    let mut codec = mk_codec::<Prioritized<SymBuf>>(Mock::new([0; EXP], 0, 0));
+    let blocked: bool = kani::any();
+    codec_set_blocked(&mut codec, blocked);
+    let owed = w.recv.flow.unclaimed_capacity();
+    let r = w.recv.send_connection_window_update(&mut codec);
+    let (cw2, ca2) = conn_flow(&w.recv);
+    match r {
+        Ok(BufferStatus::Complete) => {
+            match owed {
+                Some(incr) => {
+                    assert!(!blocked, "WINDOW_UPDATE buffered into a full codec");
+                    let b = codec_buffered(&codec);
+                    assert!(b.len() == 13 && b[2] == 4 && b[3] == 8 && b[4] == 0, "one WINDOW_UPDATE frame");
+                    assert!(be32(&b[5..9]) == 0, "connection WINDOW_UPDATE must be on stream 0");
+                    assert!(be32(&b[9..13]) == incr && incr >= 1 && incr as i64 <= MAXW, "increment on the wire");
+                    assert!(cw2 as i64 == pre.cw as i64 + incr as i64 && cw2 == ca2, "ledger != what was put on the wire");
+                    assert!((cw2 as i64) <= pre.t, "C03: connection window advertised above the configured target");
+                    // second call: nothing more
+                    let r2 = w.recv.send_connection_window_update(&mut codec);
+                    assert!(matches!(r2, Ok(BufferStatus::Complete)) && codec_buffered(&codec).len() == 13, "WINDOW_UPDATE sent twice");
+                }
+                None => {
+                    assert!(codec_buffered(&codec).is_empty() && cw2 == pre.cw, "WINDOW_UPDATE below the threshold");
+                }
+            }
+        }
+        Ok(BufferStatus::CodecFull) => {
+            assert!(blocked && owed.is_some());
+            assert!(cw2 == pre.cw && ca2 == pre.ca && codec_buffered(&codec).is_empty(), "C06: owed update must survive back-pressure unchanged");
+        }
+        Err(_) => panic!("no I/O happened"),
+    }
+    kani::cover!(owed.is_some() && !blocked, "sent");
+    kani::cover!(owed.is_some() && blocked, "deferred");
+    kani::cover!(true, "end");
+    std::mem::forget(codec);
+    rforget(w);
+}
+
+/// stream-level WINDOW_UPDATE for the queued target stream
+pub fn c03_update_stream_frame() {
+    let mut w = rworld(3, true);
+    let pre = sym_rpre(&mut w);
+    {
+        let mut p = w.store.resolve(w.key);
+        w.recv.pending_window_updates.push(&mut p);
+    }
+    let mut codec = mk_codec::<Prioritized<SymBuf>>(Mock::new([0; EXP], 0, 0));
+    let owed = {
+        let p = w.store.resolve(w.key);
+        p.recv_flow.unclaimed_capacity()
+    };
+    let r = w.recv.send_stream_window_updates(&mut w.store, &mut w.counts, &mut codec);
+    let q = rpost(&mut w);
+    assert!(matches!(r, Ok(BufferStatus::Complete)));
+    match owed {
+        Some(incr) => {
+            let b = codec_buffered(&codec);
+            assert!(b.len() == 13 && b[2] == 4 && b[3] == 8 && b[4] == 0, "one WINDOW_UPDATE frame");
+            assert!(be32(&b[5..9]) == ID, "stream WINDOW_UPDATE on the wrong stream");
+            assert!(be32(&b[9..13]) == incr && incr >= 1 && incr as i64 <= MAXW);
+            assert!(q.sw as i64 == pre.sw as i64 + incr as i64 && q.sw == q.sa);
+            assert!((q.sw as i64) <= pre.wtarget, "C03: stream window advertised above the configured initial window");
+        }
+        None => assert!(codec_buffered(&codec).is_empty() && q.sw == pre.sw),
+    }
+    assert_rinv(&pre, &q);
+    let p = w.store.resolve(w.key);
+    assert!(!p.is_pending_window_update);
+    kani::cover!(owed.is_some(), "sent");
+    kani::cover!(true, "end");
+    std::mem::forget(codec);
+    rforget(w);
+}
